@@ -192,6 +192,72 @@ pub fn run(ctx: &Ctx) {
         json!("256 types x 256 first bytes x lengths {0,1,2,3,16,255} x 2 tails x 6 addresses x owned/borrowed"),
     );
 
+    // every pair of data bytes under the protocol's own types: a frame one byte longer than a recognised one is unknown
+    // whatever the extra byte is (a recognised code followed by a related code is the likeliest slip)
+    par_range(ctx, "types-x-two-bytes", 8 * 256, |i, st| {
+        let (ty, b0) = ((i / 256) as u8, (i % 256) as u8);
+        let mut n = 0u64;
+        for b1 in 0..=255u8 {
+            for &addr in &[0x0003u16, 0xFF01] {
+                let c = FrameCase { addr, ty, data: vec![b0, b1] };
+                check_frame(&c, st).map_err(|m| (serde_json::to_value(&c).unwrap(), m))?;
+                if near_or_recognised(ty, &c.data, b0) {
+                    n += 1;
+                }
+            }
+        }
+        st.nontrivial_enumerated(n);
+        st.class_n("recognised-or-one-field-away", n);
+        Ok(())
+    });
+    ctx.part_done("types-x-two-bytes", true, json!("types 0..=7 x all 65536 two-byte data blocks x 2 addresses"));
+
+    // data chunks that are uniform except for one byte, at every position of every length: whatever is decided on a
+    // word-wise or sampled look at a chunk ("blank", "all ones") must not change the chunk
+    par_range(ctx, "chunks-uniform-but-one", 256, |len, st| {
+        let len = len as usize;
+        let mut n = 0u64;
+        for fill in [0x00u8, 0xFF] {
+            for pos in 0..len {
+                for ty in [0u8, 1, 9] {
+                    let mut data = vec![fill; len];
+                    data[pos] = 0x7F;
+                    let c = FrameCase { addr: 0x0040, ty, data };
+                    check_frame(&c, st).map_err(|m| (serde_json::to_value(&c).unwrap(), m))?;
+                    n += 1;
+                }
+            }
+        }
+        st.nontrivial_enumerated(n);
+        Ok(())
+    });
+    ctx.part_done("chunks-uniform-but-one", true, json!("types {0,1,9} x every length 1..=255 x fill {0x00,0xFF} x one deviating byte at every position"));
+
+    // triples over the bytes the protocol table itself uses (state, request and acknowledgement codes, 0x00, 0xFF)
+    {
+        let mut codes: Vec<u8> = vec![0x00, 0xFF, 0x01, 0x10];
+        for m in all_addressed(3) {
+            let (_, _, data) = m.ref_frame();
+            codes.extend_from_slice(&data);
+        }
+        codes.sort_unstable();
+        codes.dedup();
+        let codes2 = codes.clone();
+        let ncodes = codes.len();
+        par_range(ctx, "types-x-code-triples", 8 * ncodes as u64, move |i, st| {
+            let (ty, b0) = ((i / ncodes as u64) as u8, codes2[(i % ncodes as u64) as usize]);
+            for &b1 in &codes2 {
+                for &b2 in &codes2 {
+                    let c = FrameCase { addr: 3, ty, data: vec![b0, b1, b2] };
+                    check_frame(&c, st).map_err(|m| (serde_json::to_value(&c).unwrap(), m))?;
+                }
+            }
+            st.nontrivial_enumerated((codes2.len() * codes2.len()) as u64);
+            Ok(())
+        });
+        ctx.part_done("types-x-code-triples", true, json!({"what": "types 0..=7 x every 3-byte data block over the bytes that occur in the protocol table", "code_bytes": ncodes}));
+    }
+
     // all addresses x every recognised code ------------------------------------------------
     par_range(ctx, "addresses-x-codes", 65536, |i, st| {
         let addr = i as u16;
